@@ -567,6 +567,11 @@ def fam_names(rng, n, prefix):
             out.append(fn_case(cid, rng.choice(["parse_video_codec", "parse_audio_codec"]), hx(t)))
         elif k < 6 and rng.chance(1, 4):
             out.append(fn_case(cid, "invariant_log", "-"))
+        elif k < 6 and rng.chance(1, 3):
+            out.append(fn_case(cid, "opus_config", rng.choice(["mono", "stereo", "default"]),
+                               rng.choice(["~", "0", "138", "ffff"]), rng.choice(["~", "0", "1", "2", "3", "8", "ff"])))
+        elif k < 6 and rng.chance(1, 6):
+            out.append(fn_case(cid, "frag_default_init", "-"))
         elif k < 6:
             out.append(fn_case(cid, "video_codec_name", rng.choice(V_VCODECS)))
         else:
